@@ -115,12 +115,15 @@ def gen_cases(tier: str, seed: int) -> list[dict[str, Any]]:
         hist = HISTORIES[h]
         if extra['accum'] == 2:
             hist = [['train', 2] if op[0] == 'train' else op for op in hist]
-        model = ['mlp3', 'mixb', 'mlp2', 'mlp2nb'][i % 4]
+        model = ['mlp3', 'mixb', 'mlp2', 'mlp2nb', 'eq'][i % 5]
         if tier == 'thorough' and i % 7 == 0:
             model = 'conv'
         cfg = dict(c)
         cfg.update(extra)
         cfg['model'] = model
+        # every third case: no gradient averaging by the driver, so that the
+        # ranks are not synchronised once per iteration and can drift apart
+        cfg['ddp'] = (i % 3 != 2)
         cfg.update([dict(), dict(inv_dtype='float64'),
                     dict(param_dtype='float64', inv_dtype='float32'),
                     dict()][(i // 4) % 4])
@@ -136,10 +139,15 @@ def policies(W: int, seed: int) -> list[simdist.Policy]:
         simdist.LazyCompletion(seed + 1),
         simdist.EagerCompletion(rev),
         simdist.RunToBlock(rev, lazy=True),
+        # ranks run far ahead of each other while slots complete as soon as
+        # possible: exposes decisions taken on "is my future done yet?"
+        simdist.RunToBlock(list(range(W)), lazy=False),
     ]
 
 
 def final_grads(res: Any) -> list[dict] | None:
+    if not res.cfg.ddp:
+        return None       # per-rank gradients: values are not comparable
     out = []
     for rr in res.ranks:
         if rr is None or not rr.snaps:
@@ -176,8 +184,19 @@ def run_case(case: dict[str, Any]) -> dict[str, Any]:
             ref_grads = final_grads(res)
         else:
             if st != sig0 or res.groups != groups0:
-                notes.append(
-                    f'programs differ between schedules ({pol.name})')
+                iss = {r: [o for o in p if o[0] != 'W'] for r, p in st.items()}
+                iss0 = {r: [o for o in p if o[0] != 'W'] for r, p in sig0.items()}
+                if iss != iss0 or res.groups != groups0:
+                    # which collectives a rank issues must not depend on timing
+                    issues.append((
+                        f'the sequence of collectives a rank issues depends '
+                        f'on the schedule ({pol.name} vs the first policy)',
+                        {'monitor': 'schedule_dependent_program',
+                         'phase': 'run',
+                         'strategy': analyze.strategy_name(cfg)}))
+                else:
+                    notes.append(
+                        f'wait positions differ between schedules ({pol.name})')
             g = final_grads(res)
             if ref_grads is not None and g is not None:
                 same = all(
@@ -233,7 +252,7 @@ def replay_case(arg: tuple[dict[str, Any], int]) -> dict[str, Any]:
         pol = simdist.ScriptPolicy(sc)
         res = kaisa.run(cfg, case['history'], pol, seed=case['seed'])
         g = final_grads(res)
-        same = (g0 is not None and g is not None and all(
+        same = (g0 is None or g is None or all(
             analyze.grads_bitwise_equal(a, b)
             for ra, rb in zip(g0, g) for a, b in zip(ra, rb)))
         results.append({
